@@ -18,7 +18,9 @@
 (*   processors' counters   sync counters on the process meter (filter hit / miss, generated response)                 *)
 (* The state g is a record; IScrape(g) is what the Prometheus registry shows.  Bug # "none" selects a broken or a       *)
 (* benign variant (MC_X09: the broken ones must be refuted, the benign ones accepted).                                 *)
-EXTENDS MetricsP, X09Bug
+EXTENDS MetricsP, X09Bug, SequencesExt
+
+SetToSeqX(S) == SetToSeq(S)
 
 AllG == <<"api_call_count", "api_call_size", "transaction_duration", "provider_transaction_duration">>
 AllS == <<"active_flows", "flow_invocations", "requests_through_flows", "avg_flow_execution_time", "avg_processor_execution_time">>
@@ -30,7 +32,8 @@ Key(r) == [tag |-> r.tag, m |-> r.m, nu |-> r.nu, st |-> r.st]
 \* discovery.Run: the records are counted under the endpoint the URL tree gives their URL at that moment
 IFlush(g, n, attr) ==
     LET k == IF n > Len(g.pend) THEN Len(g.pend) ELSE n
-        add == [i \in 1..k |-> [tag |-> g.pend[i].tag, m |-> g.pend[i].m, nu |-> AttrOf(attr, g.pend[i].us), st |-> g.pend[i].st]]
+        add == [i \in 1..k |-> [tag |-> g.pend[i].tag, m |-> g.pend[i].m, nu |-> AttrOf(attr, g.pend[i].us), st |-> g.pend[i].st,
+                                d |-> g.pend[i].d, td |-> g.pend[i].td]]
     IN  [g EXCEPT !.file = g.file \o add, !.fver = g.fver + 1, !.pend = SubSeq(g.pend, k + 1, Len(g.pend))]
 
 \* ReadAndParseDiscovery: what a collection sees, and the cache afterwards
@@ -63,7 +66,7 @@ CallCountSamples(g) ==
         sum(K) == IF K = {} THEN 0 ELSE LET k == CHOOSE x \in K : TRUE IN cnt(k) + sum(K \ {k})
         last(K) == cnt(CHOOSE x \in K : TRUE)
         val(L) == LET K == {k \in keys : EndpointAttrs(g, k) = L} IN IF Bug = "last-wins" THEN last(K) ELSE sum(K)
-    IN  {[n |-> "api_call_count_total", l |-> L, v |-> 1000 * val(L), p |-> 1] : L \in sets}
+    IN  {[n |-> "api_call_count_total", l |-> L, v |-> 1000 * val(L), p |-> 1, sum |-> 0] : L \in sets}
 
 \* --------------------------------------------------------------------------------------------- api_call_size
 \* the incremental mean as an exact fraction num / den
@@ -81,7 +84,7 @@ ISize(g, size) ==
 SizeSamples(g) ==
     LET v == (1000 * g.avg[1]) \div g.avg[2]
         r == IF 2 * ((1000 * g.avg[1]) % g.avg[2]) >= g.avg[2] THEN v + 1 ELSE v
-    IN  {[n |-> "api_call_size", l |-> Gw(g), v |-> r, p |-> IF g.avg[1] > 0 THEN 1 ELSE 0]}
+    IN  {[n |-> "api_call_size", l |-> Gw(g), v |-> r, p |-> IF g.avg[1] > 0 THEN 1 ELSE 0, sum |-> 0]}
 
 \* ----------------------------------------------------------------------------------------- flows / processors
 \* which flows the engine runs for a request, in order: the flows whose pattern matches, until one answers
@@ -117,7 +120,7 @@ Walk(g, t) ==
 \* the transaction as the trace shows it (what MetricsP reads)
 EventOf(g, t) ==
     LET w == Walk(g, t)
-        logged == [m |-> t.m, st |-> IF w.early THEN w.st ELSE t.st, tag |-> t.tag]
+        logged == [m |-> t.m, st |-> IF w.early THEN w.st ELSE t.st, tag |-> t.tag, d |-> t.d, td |-> t.td]
     IN  [m |-> t.m, us |-> t.us, tag |-> t.tag, hx |-> t.hx, st |-> t.st, blen |-> t.blen, clen |-> t.clen,
          procs |-> w.procs, ans |-> [answered |-> TRUE, early |-> w.early, st |-> w.st], rans |-> [answered |-> TRUE],
          logged |-> logged]
@@ -138,10 +141,70 @@ ITxn(g, e) ==
                         !.procRan = g.procRan \/ Len(e.procs) > 0,
                         !.pcount = g.pcount \o (IF Bug = "proc-count-disabled" THEN PExecOf([flows |-> [i \in DOMAIN g.flows |-> [g.flows[i] EXCEPT !.fm = TRUE, !.gm = TRUE, !.rm = TRUE]], gw |-> g.gw], e)
                                                 ELSE PExecOf([flows |-> g.flows, gw |-> g.gw], e)),
-                        !.pend = Append(g.pend, [m |-> e.logged.m, us |-> e.us, st |-> e.logged.st, tag |-> e.logged.tag])]
+                        !.pend = Append(g.pend, [m |-> e.logged.m, us |-> e.us, st |-> e.logged.st, tag |-> e.logged.tag, d |-> e.logged.d, td |-> e.logged.td])]
     IN  \* UpdateMetricsForAPICall counts response messages only: a request the gateway answered itself has none
         IF e.ans.early THEN g1
         ELSE ISize(g1, IF Bug = "doc-size" /\ e.clen >= 0 THEN e.clen ELSE e.blen)
+
+\* ------------------------------------------------------------------------------- access-log based histograms
+\* transactionMetricsManager.collectMetrics (its own parser: `hfile` = the parse of the previous collection, None before the
+\* first): for every consumer x endpoint whose two averages moved, the averages once per status code of that endpoint, under
+\* the attributes of the labels in force now.  An average is the exact fraction <<sum, count>>.
+EKey(r) == [tag |-> r.tag, m |-> r.m, nu |-> r.nu]
+AvgOf(data, k, Dur(_)) == LET I == {i \in DOMAIN data : EKey(data[i]) = k} IN <<SumSeq([j \in 1..Len(data) |-> IF j \in I THEN Dur(data[j]) ELSE 0]), Cardinality(I)>>
+SameAvg(a, b) == a[1] * b[2] = b[1] * a[2]
+
+IHistCollect(g) ==
+    IF ~g.hists THEN g
+    ELSE IF g.hcached /\ g.hver = g.fver THEN g           \* the file has not moved: the cached parse is compared with itself
+    ELSE
+    LET new == g.file
+        old == g.hfile
+        keys == {EKey(new[i]) : i \in DOMAIN new}
+        had(k) == g.hcached /\ \E i \in DOMAIN old : EKey(old[i]) = k
+        moved(k) == ~had(k) \/ ~SameAvg(AvgOf(new, k, LAMBDA r : r.d), AvgOf(old, k, LAMBDA r : r.d))
+                            \/ ~SameAvg(AvgOf(new, k, LAMBDA r : r.td), AvgOf(old, k, LAMBDA r : r.td))
+        sts(k) == {new[i].st : i \in {j \in DOMAIN new : EKey(new[j]) = k}}
+        all == UNION {{[l |-> EndpointAttrs(g, [tag |-> k.tag, m |-> k.m, nu |-> k.nu, st |-> st]), k |-> k, st |-> st,
+                        d |-> AvgOf(new, k, LAMBDA r : IF Bug = "hist-swapped" THEN r.td ELSE r.d),
+                        td |-> AvgOf(new, k, LAMBDA r : IF Bug = "hist-swapped" THEN r.d ELSE r.td)] : st \in sts(k)} : k \in {x \in keys : moved(x)}}
+    IN  [g EXCEPT !.hobs = g.hobs \o SetToSeqX(all), !.hfile = new, !.hver = g.fver, !.hcached = TRUE]
+
+\* LegacyMetricManager.collectMetrics (its own parser): per endpoint and status code, as many observations of the endpoint's
+\* average provider time (whole ms) as the count grew since the previous collection - for an endpoint that collection knew
+ILegacyCollect(g) ==
+    IF ~g.legacy THEN g
+    ELSE IF g.lcached /\ g.lver = g.fver THEN g
+    ELSE
+    LET new == g.file
+        old == g.lfile
+        E(r) == [m |-> r.m, nu |-> r.nu]
+        cnt(data, e, st) == Cardinality({i \in DOMAIN data : E(data[i]) = e /\ data[i].st = st})
+        known(e) == (g.lcached /\ \E i \in DOMAIN old : E(old[i]) = e) \/ Bug = "legacy-counts-first-sight"
+        pairs == {<<E(new[i]), new[i].st>> : i \in DOMAIN new}
+        avg(e) == LET I == {i \in DOMAIN new : E(new[i]) = e} IN SumSeq([j \in 1..Len(new) |-> IF j \in I THEN new[j].d ELSE 0]) \div Cardinality(I)
+        grown == {p \in pairs : known(p[1]) /\ cnt(new, p[1], p[2]) > (IF g.lcached THEN cnt(old, p[1], p[2]) ELSE 0)}
+        add == {[l |-> {<<"method", p[1].m>>, <<"normalized_url", HostOf(p[1].nu)>>, <<"status_code", ToString(p[2])>>}, e |-> p[1], st |-> p[2],
+                 n |-> IF Bug = "legacy-total" THEN cnt(new, p[1], p[2]) ELSE cnt(new, p[1], p[2]) - (IF g.lcached THEN cnt(old, p[1], p[2]) ELSE 0),
+                 val |-> avg(p[1])] : p \in grown}
+    IN  [g EXCEPT !.lobs = g.lobs \o SetToSeqX(add), !.lfile = new, !.lver = g.fver, !.lcached = TRUE]
+
+ICollect(g) == ILegacyCollect(IHistCollect(g))
+
+\* what the registry shows of them: observations x 1000, sum x 1000 (an average rounded to 1/1000)
+Milli(f) == LET q == (1000 * f[1]) \div f[2] IN IF 2 * ((1000 * f[1]) % f[2]) >= f[2] THEN q + 1 ELSE q
+HistSamples(g) ==
+    LET Ls == {g.hobs[i].l : i \in DOMAIN g.hobs}
+        one(fam, ObsVal(_)) == {[n |-> fam, l |-> L, p |-> 1,
+                              v |-> 1000 * Cardinality({i \in DOMAIN g.hobs : g.hobs[i].l = L}),
+                              sum |-> SumSeq([i \in DOMAIN g.hobs |-> IF g.hobs[i].l = L THEN Milli(ObsVal(g.hobs[i])) ELSE 0])] : L \in Ls}
+    IN  (IF "transaction_duration" \in g.hnames THEN one("lunar_transaction_duration", LAMBDA o : o.td) ELSE {})
+        \cup (IF "provider_transaction_duration" \in g.hnames THEN one("lunar_provider_transaction_duration", LAMBDA o : o.d) ELSE {})
+LegacySamples(g) ==
+    LET Ls == {g.lobs[i].l : i \in DOMAIN g.lobs}
+    IN  {[n |-> "lunar_transaction", l |-> L, p |-> 1,
+          v |-> 1000 * SumSeq([i \in DOMAIN g.lobs |-> IF g.lobs[i].l = L THEN g.lobs[i].n ELSE 0]),
+          sum |-> 1000 * SumSeq([i \in DOMAIN g.lobs |-> IF g.lobs[i].l = L THEN g.lobs[i].n * g.lobs[i].val ELSE 0])] : L \in Ls}
 
 \* --------------------------------------------------------------------------------------------- start / reload
 NewStream(g, flows) == [g EXCEPT !.flows = flows, !.inv = <<>>, !.rtf = 0, !.flowRan = FALSE, !.procRan = FALSE,
@@ -151,7 +214,11 @@ NewStream(g, flows) == [g EXCEPT !.flows = flows, !.inv = <<>>, !.rtf = 0, !.flo
 IStart(g, e) ==
     LET f == File(e)
         g1 == [g EXCEPT !.gw = e.gw, !.cfg0 = f, !.cfgLast = f, !.labels = f.labels, !.lep = f.lep, !.gmReg = f.gm, !.smReg = f.sm,
-                        !.calls = 0, !.avg = <<0, 1>>, !.pcount = <<>>, !.pend = <<>>, !.cached = FALSE, !.cache = <<>>, !.cver = 0, !.up = FALSE]
+                        !.calls = 0, !.avg = <<0, 1>>, !.pcount = <<>>, !.pend = <<>>, !.cached = FALSE, !.cache = <<>>, !.cver = 0, !.up = FALSE,
+                        !.hnames = SeqSet(f.gm) \cap {"transaction_duration", "provider_transaction_duration"},
+                        !.hists = (SeqSet(f.gm) \cap {"transaction_duration", "provider_transaction_duration"} # {}),
+                        !.hobs = <<>>, !.hfile = <<>>, !.hver = 0, !.hcached = FALSE,
+                        !.legacy = ("legacy" \in DOMAIN e /\ e.legacy), !.lobs = <<>>, !.lfile = <<>>, !.lver = 0, !.lcached = FALSE]
     IN  [NewStream(g1, e.flows) EXCEPT !.up = TRUE]
 
 \* reloadFlows: a new Stream, ReloadMetricsConfig, UpdateMetricsForFlow(new stream)
@@ -171,24 +238,25 @@ IReset(known) ==
      cfgLast |-> File([labels |-> <<>>, lepp |-> <<>>, gm |-> <<>>, sm |-> <<>>]),
      labels |-> <<>>, lep |-> <<>>, gmReg |-> <<>>, smReg |-> <<>>, file |-> <<>>, fver |-> 0, cver |-> 0, cached |-> FALSE, cache |-> <<>>,
      pend |-> <<>>, calls |-> 0, avg |-> <<0, 1>>, flows |-> <<>>, inv |-> <<>>, rtf |-> 0, active |-> 0, flowRan |-> FALSE, procRan |-> FALSE,
-     pcount |-> <<>>, up |-> FALSE]
+     pcount |-> <<>>, up |-> FALSE, hnames |-> {}, hists |-> FALSE, hobs |-> <<>>, hfile |-> <<>>, hver |-> 0, hcached |-> FALSE,
+     legacy |-> FALSE, lobs |-> <<>>, lfile |-> <<>>, lver |-> 0, lcached |-> FALSE]
 
 \* ---------------------------------------------------------------------------------------------- the registry
 SystemSamples(g) ==
     LET reg == SeqSet(g.smReg)
-        one(name, fam, v, p) == IF name \in reg THEN {[n |-> fam, l |-> Gw(g), v |-> v, p |-> p]} ELSE {}
+        one(name, fam, v, p) == IF name \in reg THEN {[n |-> fam, l |-> Gw(g), v |-> v, p |-> p, sum |-> 0]} ELSE {}
     IN  one("active_flows", "active_flows", 1000 * g.active, IF g.active > 0 THEN 1 ELSE 0)
         \cup one("requests_through_flows", "requests_through_flows_total", 1000 * g.rtf, IF g.rtf > 0 THEN 1 ELSE 0)
         \cup one("avg_flow_execution_time", "avg_flow_execution_time", IF g.flowRan THEN 1 ELSE 0, IF g.flowRan THEN 1 ELSE 0)
         \cup one("avg_processor_execution_time", "avg_processor_execution_time", IF g.procRan THEN 1 ELSE 0, IF g.procRan THEN 1 ELSE 0)
         \cup (IF "flow_invocations" \in reg
-              THEN {[n |-> "flow_invocations_total", l |-> {<<"flow_name", f>>} \cup Gw(g), v |-> 1000 * g.inv[f], p |-> 1] : f \in DOMAIN g.inv}
+              THEN {[n |-> "flow_invocations_total", l |-> {<<"flow_name", f>>} \cup Gw(g), v |-> 1000 * g.inv[f], p |-> 1, sum |-> 0] : f \in DOMAIN g.inv}
               ELSE {})
 
 ProcSamples(g) ==
     UNION {LET T(x) == x.fam = fam
                L(x) == x.l
-           IN  {[n |-> fam, l |-> s.l, v |-> s.v, p |-> 1] : s \in CountBy(SelectSeq(g.pcount, T), L)} : fam \in ProcFams}
+           IN  {[n |-> fam, l |-> s.l, v |-> s.v, p |-> 1, sum |-> 0] : s \in CountBy(SelectSeq(g.pcount, T), L)} : fam \in ProcFams}
 
 \* the registry refuses the scrape when one series comes from two instruments (same name, descriptions by processor key)
 IGatherError(g) == Collide(g.pcount) /\ Bug # "one-instrument-per-kind"
@@ -196,5 +264,5 @@ IGatherError(g) == Collide(g.pcount) /\ Bug # "one-instrument-per-kind"
 IScrape(g) ==
     CallCountSamples(g)
     \cup (IF "api_call_size" \in SeqSet(g.gmReg) THEN SizeSamples(g) ELSE {})
-    \cup SystemSamples(g) \cup ProcSamples(g)
+    \cup SystemSamples(g) \cup ProcSamples(g) \cup HistSamples(g) \cup LegacySamples(g)
 ================================================================================
